@@ -25,7 +25,8 @@ CFG = {'assumptions': ['decoder inputs are valid UTF-8 (Rust &str); the models a
  'modules': ['HumphreyModel.Props.C18Percent',
              'HumphreyModel.Props.C18Base64',
              'HumphreyModel.Props.C18Date',
-             'HumphreyModel.Props.C18Sha1'],
+             'HumphreyModel.Props.C18Sha1',
+             'HumphreyModel.Props.C18Fast'],
  'rule': 'PERCENT + BASE64: inputs fed to humphrey::percent::{percent_encode, percent_decode} and to humphrey-ws '
          'util::base64::{encode, decode} (through humphrey_ws::verif) and to the Lean models. Percent: every byte and '
          'byte pair (encode, and decode of the encoding), decode of every %X / %XY over ASCII, all strings <=4 over '
@@ -48,7 +49,32 @@ CFG = {'assumptions': ['decoder inputs are valid UTF-8 (Rust &str); the models a
          "implementation's own fields; a Rust civil-from-days reference judges it a third time (histogram key "
          'date:DIFFERS-FROM-RUST-REFERENCE). Out-of-range timestamps (negative, >= year 10000, i64 extremes) are '
          'model-correspondence only. Non-trivial = every SHA-1 case and every in-range date case; distinct = distinct '
-         'case line.',
+         'case line.  ||  LENGTH SWEEPS (all codecs, through the entry points the code uses): lengths L = every 0..300 and, '
+         'for every P in {512, 1024, 2048, 4096, 8192, 16384, 65536, 1 MiB}, every P-72..P+72 (quick tier at 1 MiB: '
+         'P-72..P+72 for the direct SHA-1 digests, P-8..P+8 for everything else; thorough: all). Lengths 0..300 run as '
+         'ordinary hex case lines: Base64 and percent encode + decode-of-the-encoding of zeros / 0xff / counting / '
+         'random bytes of every length; Base64 decode of L random symbols alone and followed by each tail shape (QQ==, '
+         'QUI=, Qf==, QUJ=), and (L <= 136 quick, <= 300 thorough) with one = or * at EVERY position; percent decode '
+         "of a text of every length with one escape (%4A, %e9, damaged %4g) at EVERY position. Above 300 the input is "
+         'a compact description expanded identically by harness and driver (x<hex> literal, <n>*<hex> cyclic pattern, '
+         '<n>r<seed> splitmix64 bytes, <n>b<seed> random Base64 symbols, <n>c<start> counting bytes; functions '
+         'sha1g, wsacc, b64g_enc, b64g_dec, pctg_enc, pctg_dec) and long outputs are compared as #<len>:<FNV-1a 64>. '
+         'SHA-1 of every such length: directly (random + one of zeros / 0xff / 0x80 / counting; thorough: all five) '
+         'AND through the public websocket_handler closure called on an upgrade request whose Sec-WebSocket-Key has '
+         'L-36 characters (hashed message = key + GUID has L bytes; also keys of 0..300 characters), output = all bytes '
+         'written to a scripted socket = the 101 response with Sec-WebSocket-Accept = base64(sha1(key+GUID)) + the '
+         'Close frame of the dropped stream. Base64 / percent encode of L random bytes + one of zeros / 0xff / '
+         "counting / 'a~' (thorough: all). Base64 decode of L random symbols (valid iff L % 4 == 0), of L-4 symbols + "
+         'each tail shape (QUJD, QUI=, QQ==, Qf==; quick: 2 rotating), and with one = or * at positions {0,1,2,3, L/2, '
+         'L-8, L-5..L-1} (quick: 2 rotating). Percent decode of periodic texts of length L with periods 3, 4, 5, 7, '
+         '17, 65 (one escape per period, so an escape starts at every offset modulo 4, 16, 64 and the text is cut '
+         'inside its last escape for 2 of every <period> consecutive lengths), shifted by 0..2 literal bytes (quick: 3 '
+         'rotating periods, 1 at 1 MiB), of random literals with %4A at the start and %4a / cut %4 / cut % / %zz at '
+         'the very end (quick: 1 rotating), and of L literals; in the quick tier the 1 MiB neighbourhood gets one variant '
+         'of each kind. Dates have no length; the analogous sweep is timestamps +-72 around every '
+         'power of two 2^0..2^62 (both signs) and every power of ten 10^0..10^18 (judged inside 1970..9999, model '
+         'correspondence outside). Large inputs run through accumulator forms of the list codecs (Model/CodecTR.lean), '
+         'proved equal to the models for every input (Props/C18Fast.lean).',
  'technique': 'Lean 4 theorems: encoders = RFC specs, decoder inverses, SHA-1 = RFC 3174, date = proleptic Gregorian '
               'calendar; all-lengths / every-day differential correspondence',
  'timeout': {'quick': 300, 'thorough': 3000},
@@ -62,6 +88,9 @@ CFG = {'assumptions': ['decoder inputs are valid UTF-8 (Rust &str); the models a
                   'Spec/Date.lean: leap rule, month lengths, daysFromCivil (year recurrence proved), weekday = '
                   '(4+days) mod 7, IMF-fixdate layout',
                   'Spec/Sha1.lean: RFC 3174 sections 4, 5, 6.1 as functions of t (padZeros proved minimal)',
+                  'Driver/C18Gen.lean + harness Seg: both expand a compact input description to the same bytes (a '
+                  'disagreement shows as a difference, never hides one); FNV-1a 64 + length stand for outputs longer '
+                  'than 64 bytes',
                   'std: u32::from_be_bytes / to_be_bytes / rotate_left / wrapping_add, format! width and zero flags '
                   '(modelled by their documented meaning)'],
  'violation_text': 'a home-grown primitive disagrees with its RFC on this input'}
